@@ -184,8 +184,15 @@ func (t *textReader) nextBeforeFieldName() (bool, error) {
 
 		if tok == tokenSymbolQuoted {
 			t.fieldName = &SymbolToken{Text: &val, LocalSID: SymbolIDUnknown}
-		} else {
+		} else if tok == tokenSymbol {
 			st, err := newSymbolToken(t.SymbolTable(), val)
+			if err != nil {
+				return false, err
+			}
+			t.fieldName = &st
+		} else {
+			// A field name written as a string is text, never a $n symbol ID reference.
+			st, err := NewSymbolToken(t.SymbolTable(), val)
 			if err != nil {
 				return false, err
 			}
